@@ -105,7 +105,8 @@ def picCmd (f : List String) : Option String :=
     let sc ← parseList ";" parseTriple' sc; let tc ← parseList ";" parseTriple' tc
     let db : Text.UDB := { isMark := fun c => marks.contains c,
                            decomp := fun c => (decomps.find? (fun d => d.1 == c)).map (fun d => (d.2.1, d.2.2)) }
-    let axis := sa == ta
+    -- the TikZ back-end prints the axis length with %i: equal for integral sizes, within the 1-unit truncation otherwise
+    let axis := decide (ratAbs (sa.1 - ta.1) < 1) && decide (ratAbs (sa.2 - ta.2) < 1) && (sa.1.den != 1 || sa.2.den != 1 || sa == ta)
     let main := sm == tm
     let boxes := sb == tb                                   -- both truncate the same number with %i
     let dots := sd.length == td.length && (sd.zip td).all (fun p => decide (ratAbs (p.1 - p.2) ≤ 1 / 1000000))   -- "%f" prints 6 decimals
